@@ -140,6 +140,11 @@ pub(crate) struct ShadowStack {
 }
 
 impl ShadowStack {
+    #[cfg(boa_verif)]
+    pub(crate) fn verif_len(&self) -> usize {
+        self.stack.len()
+    }
+
     pub(crate) fn push_native(
         &mut self,
         last_pc: u32,
